@@ -341,14 +341,15 @@ def expiryLoopM : List SegM → Nat → Nat
 
 def PathM.expiration (m : PathM) : Nat := expiryLoopM m.segs U32_MAX
 
-/-- `WireEncode::wire_valid` of `StandardPath` (the error text is not observable through the check); the last
-conjunct is the check `current_hop_field > MAX_TOTAL_HOPS ⇒ Err` added by /repo 6beb049 -/
+/-- `WireEncode::wire_valid` of `StandardPath` (the error text is not observable through the check); the last two
+conjuncts are the checks `current_hop_field > MAX_TOTAL_HOPS ⇒ Err` (/repo 6beb049) and
+`hop_field_count() > MAX_TOTAL_HOPS + 1 ⇒ Err` (/repo b07ca50) -/
 def PathM.wireValid (m : PathM) : Bool :=
   decide (META_SIZE_BYTES + m.segs.length * INFO_SIZE_BYTES + m.hopCount * HOP_SIZE_BYTES ≤ PATH_MAX_SIZE_BYTES) &&
   decide (m.segs.length ≤ MAX_SEGMENTS) && decide (m.segs.length ≠ 0) &&
   decide (m.currHf < m.hopCount) && decide (m.currInf < m.segs.length) &&
   m.segs.all (fun s => decide (s.hops.length ≤ MAX_SEGMENT_HOPS) && decide (s.hops.length ≠ 0)) &&
-  decide (m.currHf ≤ MAX_TOTAL_HOPS)
+  decide (m.currHf ≤ MAX_TOTAL_HOPS) && decide (m.hopCount ≤ MAX_TOTAL_HOPS + 1)
 
 /-- `encode_unchecked` into a zeroed buffer: pointers are written through 2-bit and 6-bit fields (truncated),
 the reserved bits stay zero -/
